@@ -360,6 +360,8 @@ def fill_query_params(query, params):
         if isinstance(node, ast.Parameter):
             value = params.pop(0)
             # the constant stands where the placeholder stood: keep its alias and parentheses
+            if value is None:
+                return ast.NullConstant(alias=node.alias, parentheses=node.parentheses)
             return ast.Constant(value, alias=node.alias, parentheses=node.parentheses)
 
     # put parameters into query
